@@ -307,6 +307,24 @@ def line (toks : List String) (impl : String) : Res :=
     match parseEnd en, streamOf ("x" ++ first ++ (if ps = "-" then "" else "," ++ ps)) keep cuts with
     | some e, some segs => muxRes e segs impl
     | _, _ => bad "frame mux: args"
+  | ["tpcbuf", bl, cp, pl, seed] =>
+    match bl.toNat?, cp.toNat?, pl.toNat?, seed.toNat? with
+    | some bl, some _cp, some pl, some seed =>
+      -- tcpPacketConn.ReadFrom with a caller buffer of LENGTH `bl` (capacity `cp` ≥ `bl`) and one queued packet of `pl`
+      -- bytes: the packet is returned iff it fits the buffer's LENGTH, else io.ErrShortBuffer (after the fix of F35)
+      let r := IceModel.Framing.packetConnRead bl (genBytes seed pl)
+      let model := match r with
+        | some d => "n=" ++ toString d.length ++ " e=ok d=" ++ digest d
+        | none => "n=0 e=short d=" ++ digest []
+      let ws := words impl
+      let mon := match (kv ws "n").bind String.toNat?, kv ws "e" with
+        | some n, some e =>
+          if e == "ok" && n > bl then some "ReadFrom returned more bytes than the caller's buffer holds (truncated packet)"
+          else if e == "ok" && n != pl then some "ReadFrom returned a packet of another length than the one sent"
+          else none
+        | _, _ => some "unparsable implementation output"
+      { model := model, monitor := mon, prop := "C14" }
+    | _, _, _, _ => bad "frame tpcbuf: args"
   | _ => bad "frame: unknown op"
 
 -- @component frame
